@@ -155,6 +155,7 @@ impl<W: WorldDriver> BWorld<W> {
                     }
                     BObs { raw: None, vals }
                 }
+                k if !k.reads_value() => BObs { raw: target, vals: vec![] },
                 _ => {
                     let r = target.unwrap();
                     let old = self.live[a][&r][acc.col];
@@ -287,6 +288,9 @@ pub fn pair_matrix<W: WorldDriver>(pops: &[(u8, Option<u8>)], max_pairs: usize) 
         }
         for outer in BKind::ALL {
             for inner in BKind::ALL {
+                if inner.is_cross() {
+                    continue; // a cross-archetype iteration is only modelled as the outermost access
+                }
                 for same_col in [true, false] {
                     for same_arch in [true, false] {
                         for ent_rel in 0..3 {
@@ -346,8 +350,11 @@ pub fn pair_matrix<W: WorldDriver>(pops: &[(u8, Option<u8>)], max_pairs: usize) 
 /// Soft description of an access: indices are resolved against the built world.
 pub type SoftAccess = (u8, u8, u8, u8); // kind, arch, col, entity selector (0..: live index, 250.. stale)
 
-pub fn resolve<W: WorldDriver>(bw: &BWorld<W>, s: &SoftAccess, wcount: u64) -> BAccess {
-    let kind = BKind::ALL[s.0 as usize % BKind::ALL.len()];
+pub fn resolve<W: WorldDriver>(bw: &BWorld<W>, s: &SoftAccess, wcount: u64, depth: usize) -> BAccess {
+    let mut kind = BKind::ALL[s.0 as usize % BKind::ALL.len()];
+    if depth > 0 && kind.is_cross() {
+        kind = if kind.mutable() { BKind::IterBorrowM } else { BKind::IterBorrowS };
+    }
     let arch = s.1 as usize % bw.infos.len();
     let col = s.2 as usize % bw.infos[arch].ncols();
     let key = if s.3 >= 250 || bw.order[arch].is_empty() {
@@ -432,9 +439,10 @@ pub fn search<W: WorldDriver>(cases: u32, seed: u64) -> BSearch {
         soft.iter()
             .map(|n| {
                 n.iter()
-                    .map(|s| {
+                    .enumerate()
+                    .map(|(depth, s)| {
                         wc += 1;
-                        resolve(&bw, s, wc)
+                        resolve(&bw, s, wc, depth)
                     })
                     .collect()
             })
